@@ -1,7 +1,9 @@
 ENGINES = [
     {"name": "E1 string explorer", "path": "mc/enum_strings.py",
-     "serves_properties": ["C01", "C02", "C08", "C13", "C16", "C18"],
+     "serves_properties": ["C01", "C02", "C07", "C08", "C13", "C14", "C15", "C16", "C18"],
      "kind_free_text": "bounded-exhaustive enumeration of token strings: the prefix tree over an alphabet is the transition system (state = prefix, transition = append a token); sharded over 16 long-lived worker processes; parametric families enumerated completely"},
+    {"name": "E2 written-form SMILES generator", "path": "mc/enum_smiles.py", "serves_properties": ["C03", "C04", "C10"],
+     "kind_free_text": "complete generation of SMILES written forms: ordered tree shapes x ring-bond sets x ring-digit orders x label schemes x spelling palettes (G1), all DFS spellings of a graph (G2), non-standard spellings the encoder accepts"},
     {"name": "E3 history explorer", "path": "mc/hist_explorer.py", "serves_properties": ["C08"],
      "kind_free_text": "generic walker over all module-level mutable state of the selfies package: identity-preserving restore and structural fingerprint (explicit-state BFS over API-call histories)"},
 ]
@@ -22,14 +24,38 @@ CHECKS = [
        "bounded-exhaustive enumeration of SELFIES strings with the decoder compared, string by string, against an independent executable model of docs/source/derivation.rst (model traces validated against the implementation)",
        "Every string of <= L symbols over five alphabets (core, stereo, state, outside-grammar, deep) under six tables plus every index-digit tuple in templated contexts is decoded by the implementation and by the reference model: accept/reject must coincide and atoms, bonds, orders, stereo marks and written neighbour order must be equal. Evidence carries the rule x state table actually hit.",
        "Trusted: reference model mc/oracles/refmodel.py (decisions frozen where the docs are silent: DESIGN.md section 4.2) and the independent reader. Ring numbering / spelling choices of the writer are not compared."),
+    _c("C03", "E2 written-form SMILES generator",
+       "bounded-exhaustive enumeration of SMILES written forms (all tree shapes x ring sets x digit orders x 4 label schemes up to 7/8 atoms and 2/3 rings; bond-symbol, atom-spelling, lenient-spelling and multi-fragment palettes), round trip compared index by index by an independent reader",
+       "For every generated written form the encoder accepts under the table, O1(input) and O1(decoder(encoder(input))) have the same atoms index by index (element, isotope, charge, H count), the same bonded pairs and the same order on every non-aromatic bond. Spellings are the quantified dimension, so they are enumerated completely per shape.",
+       "Trusted: independent reader. The chirality tag is deliberately not compared here (C04 judges it by parity). Rejections under the table are counted, not judged (C06)."),
+    _c("C04", "E2 written-form SMILES generator",
+       "bounded-exhaustive enumeration of stereo-decorated written forms (one centre at every position x 4 tags, two centres, all ring-digit orders and label schemes, lenient spellings; '/' '\\' on every edge and ring-bond end), parity and mark oracle from an independent reader",
+       "For every decorated form: each tagged centre keeps its handedness (tag unchanged iff the permutation between written neighbour sequences is even) and each mark is found on the same bond with the same direction. Evidence reports how many centres had their tag flipped vs kept, so the parity logic is exercised both ways.",
+       "Trusted: independent reader's written neighbour sequence. Centres with duplicate neighbour entries (H2) are skipped."),
+    _c("C07", "E1 string explorer",
+       "enumeration of a table family (3 presets, 21-key palette x 6 capacities x 3 default capacities, two-key tables) x bounded-exhaustive strings over the robust alphabet returned for each accepted table",
+       "For every table the setter accepts: membership clauses of the alphabet, every symbol decodes alone, every string of <= 2 symbols over the whole alphabet and <= 4/5 over atom symbols + structural representatives decodes to a molecule valid under that table.",
+       "Validity judged as in C01. A table is accepted when the setter does not raise; the key palette includes malformed keys so the accept/reject boundary of the setter is exercised."),
     _c("C08", "E1 string explorer",
        "bounded-exhaustive enumeration of arbitrary text (all concatenations of <= 4/5 pieces from two 30/24-piece alphabets of malformed and well-formed material x 4 flag combinations) and complete depth/length/fragment families; outcome classes checked, watchdog for termination",
        "No enumerated input makes decoder raise anything but DecoderError, return a wrong type, hang beyond the watchdog, or change the constraint state. Depth 1..1200 is enumerated completely because the recursion limit is a numeric cliff.",
        "Non-termination is only observable as a watchdog expiry (20 s + 1 s / 100 chars). Constraint state observed via the public getter after every call and a structural fingerprint of selfies.bond_constraints per shard."),
+    _c("C10", "E2 written-form SMILES generator",
+       "bounded-exhaustive enumeration of SMILES written forms and of the complete atom-spelling grid (isotope x element x chirality x H x charge spellings), ring spans / branch lengths 1..300 and 4088..4096 (all 1..4096 thorough); encode, decode, re-encode",
+       "For every accepted input: output well formed, decodable under the same table, equivalent spellings collapse to one symbol, and encoder(decoder(x)) == x.",
+       "Differential (implementation against itself) plus the independent tokeniser; equivalence classes of spellings computed independently."),
     _c("C13", "E1 string explorer",
        "bounded-exhaustive enumeration: every string <= 5/6 symbols x every subset of [nop] insertion positions (2^(n+1) variants) + doubled [nop] + padding round trip, differential against the unpadded outcome",
        "For every enumerated string and every set of insertion positions the decoder's outcome is identical; the padding path of selfies_to_encoding/encoding_to_selfies is covered for every string.",
        "Differential oracle (implementation on the unpadded string). Exceptions compared by class."),
+    _c("C14", "E1 string explorer",
+       "bounded-exhaustive enumeration of symbol-text sequences (<= 5/6 texts from two 9-text alphabets x every placement of single dots), all <= 3-string collections, and all encoder outputs reachable from <= 6/7 SMILES tokens",
+       "split_selfies, len_selfies and get_alphabet_from_selfies agree with an independent tokeniser on every enumerated well-formed string and collection; every encoder output is well formed and the reference model fed with split_selfies' tokens equals the decoder.",
+       "Trusted: the regular-expression tokeniser in mc/oracles/misc.py."),
+    _c("C15", "E1 string explorer",
+       "exhaustive small-scope enumeration: all 325 non-empty vocabularies over 5 symbols x all strings <= 3/4 symbols x pads -1..5 x 5 enc_type values, and all ordered pairs as batches, against a ten-line reference",
+       "Every combination of the finite grid is executed on the four encoding functions and compared with the reference (or must raise).",
+       "Reference semantics written from the property statement; any exception class counts as 'raises'."),
     _c("C16", "E1 string explorer",
        "bounded-exhaustive enumeration of all index-symbol tuples and all n < 16^4 against an independent positional code, on the real functions and through encoder/decoder",
        "Every n < 16^4 (16^5 thorough) and every tuple of <= 3 (4) digit tokens over the 16 index symbols, two non-index symbols and 'missing' is evaluated on the implementation and compared with an independent base-16 code; through the public API every tuple is placed behind [RingL]/[BranchL] and the realised ring target / branch length is read back from the output by an independent SMILES reader, and every ring distance / branch length up to 4099 is encoded and decoded back. This is the whole domain the property quantifies over below 16^3, so exhaustive enumeration is the right level.",
